@@ -14,6 +14,7 @@ import pathlib
 import pickle
 import sys
 
+import binding
 import fe_server as fs
 
 
@@ -49,6 +50,11 @@ class ServerAsyncioProxy:
         self.tasks.append(t)
         return t
 
+    def ensure_future(self, coro_or_future, **kw):
+        t = asyncio.ensure_future(coro_or_future, **kw)
+        self.tasks.append(t)
+        return t
+
 
 class _ClientNS:
     def __init__(self, outer):
@@ -75,6 +81,9 @@ class WebsocketsProxy:
 
     def __getattr__(self, name):
         return getattr(self._real, name)
+
+    def connect(self, uri, **kw):           # websockets.connect is the same thing as websockets.client.connect
+        return self.client.connect(uri, **kw)
 
 
 class _ServeCtx:
@@ -115,6 +124,18 @@ class ServerWebsocketsProxy:
         self._world.serve_kwargs = dict(kw)
         return _ServeCtx(self._real.unix_serve(handler, self._world.sock, **kw), self._world)
 
+    @property
+    def server(self):                       # websockets.server.serve
+        outer = self
+
+        class _NS:
+            def __getattr__(self, name):
+                return getattr(outer._real.server, name)
+
+            def serve(self, *a, **kw):
+                return outer.serve(*a, **kw)
+        return _NS()
+
 
 class World:
     def __init__(self, repo, base, echo_cap=1.5, cleanup_delay=0.0):
@@ -134,23 +155,42 @@ class World:
         self.cdir = self.base / "client"
         self.sdir.mkdir(parents=True, exist_ok=True)
         self.cdir.mkdir(parents=True, exist_ok=True)
-        sfm._PROGRAM_PATH = self.sdir
-        cfm._PROGRAM_PATH = self.cdir
+        binding.set_data_dir(sfm, self.sdir)
+        binding.set_data_dir(cfm, self.cdir)
+        # the seams are found by value: whatever name a module gives to asyncio / websockets or to the functions it imported
+        # from them is rebound (binding.rebind), and restored at shutdown
+        import websockets.client
+        import websockets.server
         self.sproxy = ServerAsyncioProxy(cleanup_delay)
-        sm.asyncio = self.sproxy
         self.cproxy = ClientAsyncioProxy(echo_cap)
-        cservice.asyncio = self.cproxy
         self.sock = str(self.base / "ws.sock")
         self.use_tcp = False
-        cservice.websockets = WebsocketsProxy(websockets, self)
+        self.wproxy = WebsocketsProxy(websockets, self)
+        self.swproxy = ServerWebsocketsProxy(websockets, self)
+        self._maps = [
+            (sm, {asyncio: self.sproxy, asyncio.sleep: self.sproxy.sleep, asyncio.create_task: self.sproxy.create_task,
+                  asyncio.ensure_future: self.sproxy.ensure_future}),
+            (cservice, {asyncio: self.cproxy, asyncio.wait_for: self.cproxy.wait_for,
+                        websockets: self.wproxy, websockets.client: self.wproxy.client,
+                        websockets.client.connect: self.wproxy.connect}),
+            (connector, {websockets: self.swproxy, websockets.server: self.swproxy.server,
+                         websockets.server.serve: self.swproxy.serve}),
+        ]
+        for mod, mp in self._maps:
+            binding.rebind(mod, mp)
         self.server = None
         self.port = None
         self.service = None       # client Service object kept between operations (keep=True)
 
     # ------------------------------------------------------------------ server
     async def start_server(self):
-        self.sfm._PROGRAM_PATH = self.sdir
-        self.connector._sse_service_manager = self.sm.ServicesManager()
+        binding.set_data_dir(self.sfm, self.sdir)
+        names = binding.find_instances(self.connector, self.sm.ServicesManager)
+        if not names:
+            raise binding.BindingError("frontend.server.connector holds no ServicesManager instance at module level")
+        mgr = self.sm.ServicesManager()
+        for n in names:
+            setattr(self.connector, n, mgr)
         try:
             os.unlink(self.sock)
         except OSError:
@@ -160,7 +200,6 @@ class World:
         self._server_up = asyncio.Event()
         self.server_task = None
         if hasattr(self.connector, "run_server"):
-            self.connector.websockets = ServerWebsocketsProxy(self.websockets, self)
             self.server_task = asyncio.get_running_loop().create_task(self.connector.run_server("127.0.0.1", 0))
             waiter = asyncio.get_running_loop().create_task(self._server_up.wait())
             await asyncio.wait({waiter, self.server_task}, timeout=10, return_when=asyncio.FIRST_COMPLETED)
@@ -205,7 +244,7 @@ class World:
 
     # ------------------------------------------------------------------ client
     def new_service(self, sid=""):
-        self.cfm._PROGRAM_PATH = self.cdir
+        binding.set_data_dir(self.cfm, self.cdir)
         return self.cservice.Service(sid)
 
     async def drop_client(self, persist=True):
@@ -267,6 +306,7 @@ class World:
         except Exception as ex:
             r["out"] = "raised"
             r["err"] = type(ex).__name__
+            r["mro"] = [c.__name__ for c in type(ex).__mro__]
             r["msg"] = str(ex)[:200]
         finally:
             if not keep:
@@ -280,10 +320,8 @@ class World:
     async def shutdown(self):
         await self.drop_client()
         await self.stop_server()
-        self.sm.asyncio = asyncio
-        self.cservice.asyncio = asyncio
-        self.cservice.websockets = self.websockets
-        self.connector.websockets = self.websockets
+        for mod, mp in self._maps:
+            binding.restore(mod, mp)
 
     # ------------------------------------------------------------------ projections
     def client_state(self, sid):
